@@ -312,7 +312,16 @@ func (tr *Trans) instr(in ssa.Instruction) {
 		tr.e.note("%s: concurrency instruction %T not translated (heap havocked)", tr.label, in)
 		tr.st = tr.g.havocAll(tr.st, nil)
 		if v, ok := in.(ssa.Value); ok {
-			tr.vals[v] = tr.freshVal(v.Type(), "conc", tr.st, tr.rc)
+			r := tr.freshVal(v.Type(), "conc", tr.st, tr.rc)
+			if sel, isSel := in.(*ssa.Select); isSel && len(r.C) >= 1 {
+				// the chosen case is one of the listed ones (or -1 for a non-blocking select that took none)
+				lo := 0
+				if !sel.Blocking {
+					lo = -1
+				}
+				tr.e.assume(tr.rc, and(ge(r.C[0], intT(int64(lo))), lt(r.C[0], intT(int64(len(sel.States))))))
+			}
+			tr.vals[v] = r
 		}
 	case *ssa.SliceToArrayPointer:
 		sv := tr.val(x.X)
